@@ -89,8 +89,10 @@ def value_dispatch(repo: Repo, R):
                 order.append(cls)
                 if cls in ARM_FIELDS:
                     rets = [n for b in arm for n in ast.walk(b) if isinstance(n, ast.Return)]
-                    got = shared.prov_text(fi.node, rets[-1].value) if rets else None
                     want = ARM_FIELDS[cls].replace("val", v)
+                    # every way out of the arm (a value of the class may leave by any of them)
+                    gots = [shared.prov_text(fi.node, r_.value) if r_.value is not None else "None" for r_ in rets]
+                    got = next((g for g in gots if g != want), gots[-1] if gots else None)
                     R.check(got == want, rule, key_of(fi, cls), fi.at(st), f"{cls} -> `{got}`; expected `{want}`",
                             why=f"a {cls}-valued parameter is exported through the wrong variant or with another value")
     # shadowing: a sub-type's arm must come before its super-type's (Decimal/Prefixed/Literal are unrelated to int/float/str; Enum may mix in str)
